@@ -15,11 +15,36 @@ Space
                      (COS n = 10000, L = 10; FFT alpha = 1.5, eta = 0.25, N = 2^18).
                      Vector strikes (the whole lattice in one call) and scalar strikes (every 4th lattice point; every point
                      on the unshifted lattice of the thorough tier) through call / put / digital / forward, and through
-                     `price(Product)` and `butterfly` at three strikes; FFT: 3 resp. 5 scalar strikes, a 2^18 transform each.
+                     `price(Product)` and `butterfly` at three strikes; one Python-int strike; FFT: 3 resp. 5 scalar strikes, a
+                     2^18 transform each.
+                     Further "model" cases on one parameter set per branch-selecting class (BS, HEM, Merton, VG, CGMY y in
+                     {-0.5, 0.5, 1.2}; thorough: every y), first pair of rates:
+                       * edges: (r, d) = (0.01, 0.04) (dividend yield above the rate), T = 5 and T = 1/52; spot 2500 (BS) and
+                         spot 1 (HEM);
+                       * construction route "reinit" (mc.alphabets.with_reinit: parameter object of a donor re-assigned attribute
+                         by attribute + initialisation() + model constructor, as model/utils.py calibrates) at T = 0.5
+                         (thorough: all maturities): all relations below AND equality with the directly constructed model;
+                       * COS constants (n, L) in {(2000, 20) - the library's own second set -, (4000, 8)} at T in {1/12, 1}
+                         (thorough: all maturities); every budget is evaluated for the constants and the range of that pricer;
+                       * Carr-Madan damping `alpha` re-assigned to 1.25 / 2.0 on the constructed FFT pricer (BS, HEM, CGMY 0.5;
+                         thorough: all) at T = 1; the FFT budget is evaluated for that alpha.
+                     Model-level routes of exponentialoflevymodel.py: `model.cdf(T, K)` (COS with n = 2000, L = 20) and
+                     `model.density(T)(s)` (a default COS pricer per call) in every "model" case with default constants.
  sub = "vg-cgmy"     every VG parameter set x (r,d) x T against CGMY(c = 1/nu, g = 1/eta_m, m = 1/eta_p, y = 0), the
                      parametrisation used by rpylib/tests/numerical/test_cos_method.py.
- sub = "cf-degenerate"  CFBlackScholes in its degenerate branch (sigma < 1e-8 or T < 1e-8): scalar strikes on a 9-point lattice
-                     including K = F exactly.
+ sub = "cf-degenerate"  CFBlackScholes in its degenerate branch (sigma < 1e-8 or T < 1e-8 or spot < 1e-8): scalar strikes on a
+                     9-point lattice including K = F exactly.
+ sub = "pricer-history"  ONE pricer object (COS, FFT, closed form) of BS / HEM / CGMY 0.5 (thorough: + Merton, VG, CGMY 1.2) taken
+                     through ordered sequences of steps.  Queries: call / put with vector and scalar strikes at T in {0.5, 1, 2};
+                     COS also digital, cdf, density at two point sets of equal length at one maturity, density_log, price(call
+                     product), price(put product), butterfly, forward; closed form also digital, forward, butterfly.
+                     Operations: `other` (a second pricer of the same class on Black-Scholes(0.35, spot 80, other rates), with the
+                     same and with the default constants, asked at the same maturities - its own answers are compared with the
+                     closed form), `copy` (the pricer replaced by its deepcopy), `set-r` / `set-d` (public attribute of the pricer's
+                     model re-assigned; not `set-r` for the FFT pricer), `model-routes` (COS: model.cdf and model.density of the
+                     pricer's model), `set-alpha` (FFT: damping re-assigned).  Patterns, one case each: "pairs" = [q], [s, q];
+                     "qoq" = [q, o, q']; "ooq" = [o, o', q]; "qqq" = three core queries (FFT: thorough only).  COS "qoq" / "ooq"
+                     run with the non-default constants n = 1000, L = 12.
 
 Oracle (tau = a-priori error budget of mc/c18_util.py, evaluated per (model, T, strike) from the characteristic function,
 the truncation range and the pricer constants only - see that module's docstring for the derivation and the two structural
@@ -41,7 +66,14 @@ assumptions; it is an evaluated bound, not a proof over the parameter box)
  cross         BS: |COS - CF| <= tau_cos, |FFT - CF| <= tau_fft, |COS digital - CF digital| <= tau_d, CF parity;
                all models: |COS - FFT| <= tau_cos + tau_fft;  VG vs CGMY: characteristic functions equal to 1e-11 at 8 real
                and 2 imaginary arguments, prices within tau_vg + tau_cgmy
- scalar        scalar-strike result = the vector entry to 1e-12 max(K,S0) (shape (1,) or 0-d accepted)
+ scalar        scalar-strike result = the vector entry to 1e-12 max(K,S0) (shape (1,) or 0-d accepted); CFBlackScholes put and
+               digital likewise; int strike = float strike
+ model routes  |model.cdf - (1 - digital/df)| <= (tau_d + tau_d(n=2000, L=20))/df, in [0,1] and non-decreasing up to that budget;
+               model.density(T)(s) = density of a default COS pricer (1e-9 relative); COS density asked twice = itself
+ route         "reinit" twin: put and digital equal those of the directly constructed model (1e-11 max(K,S0,F) / 1e-11)
+ history       the last query of every sequence = the answer of a fresh pricer on a fresh model (bit for bit; 1e-12 max(K,S0)
+               after set-r / set-d, compared with a fresh model built with the new rates); the second pricer of `other`
+               within 1e-7 (COS) / 1e-5 (FFT) of the Black-Scholes closed form (a-priori budgets there: < 1e-8 / 2e-6)
 
 A strike enters an assertion only if its budget is below TOL_REL * max(K, S0) = 1e-3 max(K,S0) (prices) or 1e-3 (digital):
 "the documented box where the truncation error is below tolerance".  Strikes / models beyond it are *counted*
@@ -50,9 +82,16 @@ have an atom, hence no density and a digital series that does not converge absol
 skipped there, prices are still checked at their honest, larger tau); VG with 2T/nu <= 1 and CGMY y = 0 with 2cT <= 1 have
 an unbounded density (density positivity skipped).
 
-Exclusions (statement silent): strikes outside the lattice; n, L, alpha, eta, N other than the defaults; CFBlackScholes
+Exclusions (statement silent): strikes outside the lattice; (n, L) other than the three sets above; FFT `eta` / `N` re-assigned
+(the pricer derives its log-strike grid from them once, in the constructor; there are no constructor arguments); CFBlackScholes
 call/put with array strikes in the degenerate branch (documented as float) and digital with a scalar strike there;
-CFVarianceGammaModel.call (raises NotImplementedError by design); non-exponential models; r < 0.
+CFVarianceGammaModel.call (raises NotImplementedError by design); non-exponential models; r < 0; strikes as Python lists
+(COSPricer divides by them: TypeError; documented as vectors).  Histories NOT enumerated because the objects are not built
+for them (observed on the unchanged tree, see the report): `model.spot` re-assigned (the model keeps log_spot from its
+constructor, so the model itself is inconsistent: COS prices follow the new spot, the COS density and the FFT pricer the old
+one); `model.r` re-assigned under an existing FFTPricer (it copies r in its constructor; the library never does this).
+`Product.notional` is ignored by `price(product)` (statement silent).  std_moment with a list (stddev / skewness / kurtosis
+of the model) is not in the statement.
 """
 from __future__ import annotations
 
@@ -79,8 +118,10 @@ except Exception:  # noqa: BLE001
 PID = "C18"
 LEVEL = "exploration"
 RULE = (
-    "complete product model-lattice x maturities x 41-point strike lattice (vector and scalar strikes), plus every VG "
-    "parameter set against its CGMY(y=0) parametrisation and the closed form's degenerate branch; a case is non-trivial "
+    "complete product model-lattice x maturities x 41-point strike lattice (vector and scalar strikes), the same relations for "
+    "re-initialised twins, non-default COS constants and FFT damping, every VG parameter set against its CGMY(y=0) "
+    "parametrisation, the closed form's degenerate branch, and all step sequences of four patterns on one pricer object; "
+    "a case is non-trivial "
     "when at least one strike of it has an a-priori budget below 1e-3*max(K,S0) and was compared; distinct = distinct "
     "(model spec, maturity) case dict"
 )
@@ -94,6 +135,11 @@ ASSUMPTIONS = [
     "for an FFT price",
     "strikes whose budget exceeds 1e-3*max(K,S0) are counted as outside the box and not asserted",
     "the COS truncation range is read through COSPricer._interval_a_b (recomputed from the cumulants if that name disappears)",
+    "ExponentialOfLevyModel.cdf is the COS cdf with (n, L) = (2000, 20) and ExponentialOfLevyModel.density the COS density with "
+    "the default constants (read from the anchored source): the budget of the first and the equality oracle of the second "
+    "depend on these constants",
+    "history oracle: a pricer object is a pure function of (model values, constants) - its answer equals that of a freshly "
+    "constructed pricer on a freshly constructed model, whatever it or any other pricer was asked before",
 ]
 CHUNK = 1
 
@@ -162,6 +208,32 @@ def _model_specs(tier):
     return out
 
 
+# constants of the two model-level routes of exponentialoflevymodel.py (read from the anchored source): `cdf` builds
+# COSPricer(self, n=2_000, l=20), `density` builds COSPricer(self)
+MODEL_CDF_N, MODEL_CDF_L = 2000, 20
+# non-default constants of the COS pricer (the first is the library's own second set) and of the Carr-Madan damping
+COS_VARIANTS = [(2000, 20), (4000, 8)]
+FFT_ALPHAS = [1.25, 2.0]
+
+
+def _first_of_family(tier):
+    """one parameter set per branch-selecting model class, first pair of rates"""
+    r, d = A.RATES[0]
+    out = [_spec("bs", {"sigma": 0.3}, r, d), _spec("hem", HEM[0], r, d), _spec("merton", MERTON[0], r, d),
+           _spec("vg", VG[0], r, d)]
+    for y in ((-0.5, 0.5, 1.2) if tier != "thorough" else A.CGMY_Y):
+        out.append(_spec("cgmy", {"c": 1.0, "g": 15.0, "m": 20.0, "y": y}, r, d))
+    return out
+
+
+def _model_case(spec, T, tier, shift=0.0, **extra):
+    thorough = tier == "thorough"
+    c = {"sub": "model", "spec": spec, "T": T, "shift": shift, "dens_m": 512 if thorough else 256,
+         "scalar_stride": 1 if (thorough and shift == 0.0) else 4, "fft_scalars": 5 if thorough else 3}
+    c.update(extra)
+    return c
+
+
 def cases(tier):
     thorough = tier == "thorough"
     out = []
@@ -169,17 +241,49 @@ def cases(tier):
     for sigma, T in ((0.0, 1.0), (5e-9, 1.0), (0.2, 0.0), (0.2, 5e-9), (0.0, 0.0)):
         for (r, d) in A.RATES:
             out.append({"sub": "cf-degenerate", "sigma": sigma, "T": T, "r": r, "d": d, "spot": 100.0})
+    # the third way into the degenerate branch: spot below the threshold
+    for (r, d) in A.RATES:
+        out.append({"sub": "cf-degenerate", "sigma": 0.2, "T": 1.0, "r": r, "d": d, "spot": 5e-9})
     for shift in ((0.0, 0.5, 0.25, 0.75) if thorough else (0.0,)):
         for T in MATURITIES:
             for spec in _model_specs(tier):
-                out.append({"sub": "model", "spec": spec, "T": T, "shift": shift, "dens_m": 512 if thorough else 256,
-                            "scalar_stride": 1 if (thorough and shift == 0.0) else 4, "fft_scalars": 5 if thorough else 3})
+                out.append(_model_case(spec, T, tier, shift))
+    fof = _first_of_family(tier)
+    # edges of the quantifier absent from the product above: dividend yield above the rate (forward below the spot), a long and a
+    # very short maturity
+    for spec in fof:
+        out.append(_model_case(dict(spec, r=0.01, d=0.04), 1.0, tier))
+        for T in (5.0, 1.0 / 52.0):
+            out.append(_model_case(spec, T, tier))
+    # other spots (the FFT grid and every budget scale with the spot; the thorough tier has more)
+    out.append(_model_case(_spec("bs", {"sigma": 0.3}, 0.05, 0.02, 2500.0), 1.0, tier))
+    out.append(_model_case(_spec("hem", HEM[0], 0.05, 0.02, 1.0), 0.5, tier))
+    # the same models reached the way the library's calibration helpers reach them (parameter object re-assigned + initialisation())
+    for spec in A.with_reinit(fof):
+        if spec.get("via") == "reinit":
+            for T in ((0.5,) if not thorough else MATURITIES):
+                out.append(_model_case(spec, T, tier))
+    # rarely used public options: COS constants (n, L) other than the defaults, Carr-Madan damping alpha re-assigned
+    for spec in fof:
+        for (n, l) in COS_VARIANTS:
+            for T in ((1.0 / 12.0, 1.0) if not thorough else MATURITIES):
+                out.append(_model_case(spec, T, tier, cos=[n, l]))
+    for spec in (fof if thorough else [sp for sp in fof if sp["family"] in ("bs", "hem") or sp["params"].get("y") == 0.5]):
+        for alpha in FFT_ALPHAS:
+            out.append(_model_case(spec, 1.0, tier, fft_alpha=alpha))
     for T in MATURITIES:
-        for p in VG:
+        for i, p in enumerate(VG):
             for (r, d) in (A.RATES if thorough else A.RATES[:1]):
-                out.append({"sub": "vg-cgmy", "vg": dict(p), "T": T, "r": r, "d": d, "spot": 100.0})
-    # histories of queries on ONE pricer object (maturities / strike sets in every order): the relations of the statement
-    # are per (model, maturity, strike), so the answer of a pricer object must not depend on what it was asked before
+                c = {"sub": "vg-cgmy", "vg": dict(p), "T": T, "r": r, "d": d, "spot": 100.0}
+                if thorough or (i == 0) == (T < 1.0):
+                    out.append(c)
+                    if thorough:
+                        out.append(dict(c, via="reinit"))
+                else:
+                    out.append(dict(c, via="reinit"))
+    # histories on ONE pricer object (queries at several maturities / strike sets, state-changing public operations in
+    # between): the relations of the statement are per (model, maturity, strike), so the answer of a pricer object must not
+    # depend on what it - or any other pricer - was asked before
     hist_specs = [_spec("bs", {"sigma": 0.2}, 0.05, 0.02), _spec("hem", {"sigma": 0.05, "p": 0.6, "eta1": 20.0, "eta2": 25.0, "intensity": 3.0}, 0.02, 0.0),
                   _spec("cgmy", {"c": 1.0, "g": 15.0, "m": 20.0, "y": 0.5}, 0.02, 0.0)]
     if thorough:
@@ -187,10 +291,17 @@ def cases(tier):
                        _spec("vg", {"sigma": 0.1, "nu": 0.06, "theta": 0.1}, 0.02, 0.0),
                        _spec("cgmy", {"c": 1.0, "g": 15.0, "m": 20.0, "y": 1.2}, 0.02, 0.0)]
     for spec in hist_specs:
-        for pricer in ("cos", "fft", "cf"):
+        for pricer in ("cf", "cos", "fft"):
             if pricer == "cf" and spec["family"] != "bs":
                 continue
-            out.append({"sub": "pricer-history", "spec": spec, "pricer": pricer, "depth": 3})
+            pats = ["pairs", "qoq", "ooq", "qqq"]
+            if pricer == "fft" and not thorough:
+                pats = ["pairs", "qoq", "ooq"]  # a 2^18 transform per query: three queries in a row are in the thorough tier
+            for pat in pats:
+                c = {"sub": "pricer-history", "spec": spec, "pricer": pricer, "pattern": pat}
+                if pricer == "cos" and pat in ("qoq", "ooq"):
+                    c["cos"] = [1000, 12]  # non-default constants (the oracle is equality with a fresh pricer, not accuracy)
+                out.append(c)
     return out
 
 
@@ -320,9 +431,16 @@ def _check_model(sh, case):
     S0, r, d = float(spec["spot"]), float(spec["r"]), float(spec["d"])
     df = math.exp(-r * T)
     F = S0 * math.exp((r - d) * T)
-    cp = COSPricer(model)
+    cos_nl = case.get("cos")
+    cp = COSPricer(model) if cos_nl is None else COSPricer(model, n=int(cos_nl[0]), l=cos_nl[1])
     a, b = _interval(cp, model, T)
     ctx = {"model": A.model_label(spec), "T": T, "r": r, "d": d, "spot": S0, "a": a, "b": b}
+    if cos_nl is not None:
+        ctx["cos_n_l"] = list(cos_nl)
+        sh.cls(f"cos-constants:n={int(cos_nl[0])},L={cos_nl[1]}")
+    if spec.get("via"):
+        sh.cls(f"construction-route:{spec['via']}")
+    sh.cls("rates:d>r" if d > r else "rates:d<=r")
     sh.cls(f"family:{icls}")
     sh.cls(f"T:{T:.4g}")
     sh.cls(f"rates:{r}/{d}")
@@ -338,6 +456,10 @@ def _check_model(sh, case):
     K = S0 * np.exp(kk)
     # the FFT pricer's own constants enter its budget (Carr-Madan damping, spacing, size)
     fp = _call_lib(sh, f"{PID}:call:FFTPricer", icls, FFTPricer, model)
+    if fp is not None and case.get("fft_alpha") is not None:
+        fp.alpha = float(case["fft_alpha"])  # public attribute, read at every call (N and eta are not: `l`, `b` are derived once)
+        ctx["fft_alpha"] = fp.alpha
+        sh.cls(f"fft-alpha:{fp.alpha:g}")
     f_alpha = float(getattr(fp, "alpha", 1.5)) if fp is not None else 1.5
     f_eta = float(getattr(fp, "eta", 0.25)) if fp is not None else 0.25
     f_n = int(getattr(fp, "N", 2 ** 18)) if fp is not None else 2 ** 18
@@ -380,6 +502,17 @@ def _check_model(sh, case):
     # parity / forward: identities of the implementation
     rep.close("parity", "COSPricer.forward", "not-discounted-forward-minus-strike", fwd, ref_fwd, tol_id, K)
     rep.close("parity", "COSPricer.call-put", "call-minus-put-not-forward", call - put, ref_fwd, tol_id, K)
+
+    # a model reached through another construction route is the same model: same prices as the directly constructed one (the
+    # relations below hold for ANY consistent model, e.g. one that kept a derived constant of the donor parameters)
+    if spec.get("via"):
+        direct = A.make_model({k: v for k, v in spec.items() if k != "via"})
+        cpd = COSPricer(direct) if cos_nl is None else COSPricer(direct, n=int(cos_nl[0]), l=cos_nl[1])
+        pd_ = _call_lib(sh, f"{PID}:call:COSPricer.put", icls, cpd.put, K, T)
+        dd_ = _call_lib(sh, f"{PID}:call:COSPricer.digital", icls, cpd.digital, K, T)
+        if pd_ is not None and dd_ is not None:
+            rep.close("route", "COSPricer.put", f"differs-from-directly-constructed-model:{spec['via']}", put, _vec(pd_, NSTRIKES), tol_id, K)
+            rep.close("route", "COSPricer.digital", f"differs-from-directly-constructed-model:{spec['via']}", dig, _vec(dd_, NSTRIKES), 1e-11 + 0 * K, K)
 
     # no-arbitrage bounds
     rep.le("bounds", "COSPricer.call", "below-intrinsic", np.maximum(0.0, ref_fwd), call, tau, K, mask=inb)
@@ -425,6 +558,25 @@ def _check_model(sh, case):
         rep_c.le("cdf", "COSPricer.cdf", "below-zero", 0.0, cdf, tau_d / df + 1e-11, K, mask=inb_d)
         rep_c.le("cdf", "COSPricer.cdf", "above-one", cdf, 1.0, tau_d / df + 1e-11, K, mask=inb_d)
 
+    # model-level routes of exponentialoflevymodel.py (what the library's Kolmogorov-Smirnov script and the Monte-Carlo statistics
+    # call): cdf through a COS pricer with the library's second set of constants - both are approximations of one probability
+    model_cdf = getattr(model, "cdf", None)
+    if cos_nl is None and model_cdf is not None:
+        mc_ = _call_lib(sh, f"{PID}:call:ExponentialOfLevyModel.cdf", icls, model_cdf, T, K)
+        cp2 = COSPricer(model, n=MODEL_CDF_N, l=MODEL_CDF_L)
+        a2, b2 = _interval(cp2, model, T)
+        if mc_ is not None and a2 < 0.0 < b2 and math.isfinite(a2) and math.isfinite(b2):
+            mc_ = _vec(mc_, NSTRIKES)
+            td2 = Budget(model, fam, params, T, a2, b2, MODEL_CDF_N).tau_dig(K)
+            m2_ = inb_d & (td2 <= TOL_REL)
+            sh.count("outside_box:model-cdf-strikes", int(np.sum(~m2_)))
+            rep.close("cdf", "ExponentialOfLevyModel.cdf", "differs-from-one-minus-undiscounted-digital-beyond-budgets", mc_, 1.0 - dig / df,
+                      (tau_d + td2) / df + 1e-11, K, mask=m2_)
+            rep.le("cdf", "ExponentialOfLevyModel.cdf", "below-zero", 0.0, mc_, td2 / df + 1e-11, K, mask=m2_)
+            rep.le("cdf", "ExponentialOfLevyModel.cdf", "above-one", mc_, 1.0, td2 / df + 1e-11, K, mask=m2_)
+            mm_ = m2_[:-1] & m2_[1:]
+            rep.le("cdf", "ExponentialOfLevyModel.cdf", "decreasing-in-x", mc_[:-1], mc_[1:], (td2[:-1] + td2[1:]) / df + 1e-11, K[:-1], mask=mm_)
+
     # ------------------------------------------------------------------ implied density
     M = int(case.get("dens_m", 256))
     z = np.linspace(a, b, M + 1)
@@ -456,6 +608,19 @@ def _check_model(sh, case):
         if dl is not None:
             rep.close("density", "COSPricer.density_log", "not-density-times-s", _vec(dl, len(idx)), flog[idx],
                       1e-11 * (1.0 + np.abs(flog[idx])), s_pts[idx])
+        # the density asked a second time on the same pricer and the same points (the multilevel engine keeps one pricer and
+        # asks again at every update of its statistics), and through the model-level route (a new default pricer per call)
+        idx2 = list(range(0, M + 1, 8))
+        d2 = _call_lib(sh, f"{PID}:call:COSPricer.density", icls, cp.density, T, s_pts[idx2])
+        if d2 is not None:
+            rep.close("density", "COSPricer.density", "second-answer-differs-from-first", _vec(d2, len(idx2)) * s_pts[idx2], flog[idx2],
+                      1e-11 * (1.0 + np.abs(flog[idx2])), s_pts[idx2])
+        model_density = getattr(model, "density", None)
+        if cos_nl is None and model_density is not None:
+            md = _call_lib(sh, f"{PID}:call:ExponentialOfLevyModel.density", icls, lambda: model_density(T)(s_pts[idx2]))
+            if md is not None:
+                rep.close("density", "ExponentialOfLevyModel.density", "differs-from-default-COS-density", _vec(md, len(idx2)) * s_pts[idx2],
+                          flog[idx2], 1e-9 * (1.0 + np.abs(flog[idx2])), s_pts[idx2])
 
     # ------------------------------------------------------------------ FFT
     fcall = fput = None
@@ -476,8 +641,15 @@ def _check_model(sh, case):
         cff = _vec(cfp.forward(K, T), NSTRIKES)
         cfd = _vec(cfp.digital(K, T), NSTRIKES)
         cfv = _vec(cfp.call(K, T), NSTRIKES)  # vector strikes through the regular branch
+        cfw = _vec(cfp.put(K, T), NSTRIKES)
         tol_cf = 1e-12 * np.maximum(scaleK, F)
         rep.close("scalar", "CFBlackScholes.call", "vector-differs-from-scalar", cfv, cfc, tol_cf, K)
+        rep.close("scalar", "CFBlackScholes.put", "vector-differs-from-scalar", cfw, cfu, tol_cf, K)
+        i3 = [0, NSTRIKES // 2, NSTRIKES - 1]
+        cfds = [_call_lib(sh, f"{PID}:call:CFBlackScholes.digital-scalar", icls, cfp.digital, float(K[i]), T) for i in i3]
+        if all(v is not None for v in cfds):
+            rep.close("scalar", "CFBlackScholes.digital", "scalar-differs-from-vector", [float(np.squeeze(v)) for v in cfds], cfd[i3],
+                      [1e-13] * 3, K[i3])
         rep.close("parity", "CFBlackScholes.call-put", "call-minus-put-not-forward", cfc - cfu, cff, tol_cf, K)
         rep.close("parity", "CFBlackScholes.forward", "not-discounted-forward-minus-strike", cff, ref_fwd, tol_cf, K)
         rep.close("cross", "COS-vs-CF.call", "disagree-beyond-budget", call, cfc, tau + tol_cf, K, mask=inb)
@@ -503,6 +675,11 @@ def _check_model(sh, case):
                 sh.violation(f"{PID}:scalar:COSPricer.{name}:wrong-shape:{icls}", f"scalar strike returned {len(rv)} values", dict(ctx, K=k))
                 continue
             rep.close("scalar", f"COSPricer.{name}", "scalar-differs-from-vector", rv, [vecval[i]], [tol], [k])
+    if S0 == int(S0) and S0 >= 1:  # an integer strike (Python int) is a scalar strike
+        ri = _call_lib(sh, f"{PID}:call:COSPricer.call-int-strike", icls, cp.call, int(S0), T)
+        rf = _call_lib(sh, f"{PID}:call:COSPricer.call-scalar", icls, cp.call, float(S0), T)
+        if ri is not None and rf is not None:
+            rep.close("scalar", "COSPricer.call", "int-strike-differs-from-float-strike", _vec(ri, 1), _vec(rf, 1), [1e-12 * S0], [S0])
     # price(Product) dispatch with scalar and vector strikes
     und = Spot()
     for i in (0, c0, NSTRIKES - 1):
@@ -516,6 +693,7 @@ def _check_model(sh, case):
                 prod = Product(payoff_underlying=und, payoff=payoff, maturity=T)
             except Exception:  # constructor signature is not the property's subject
                 sh.count("product_constructor_unavailable")
+                sh.cap("Product(payoff_underlying, payoff, maturity) could not be built: price(product) dispatch not exercised")
                 continue
             res = _call_lib(sh, f"{PID}:call:COSPricer.price-{pname}", icls, cp.price, prod)
             if res is None:
@@ -534,7 +712,7 @@ def _check_model(sh, case):
                 rep.close("scalar", "FFTPricer.put", "scalar-differs-from-vector", _vec(rp, 1), [fput[i]], [tol], [k])
 
     sh.outcome((icls, round(T, 4), int(np.sum(inb)), int(np.sum(inb_d)), int(np.sum(inb_f))))
-    if case.get("spec", {}).get("r") == 0.02 and abs(T - 1.0) < 1e-12:
+    if case.get("spec", {}).get("r") == 0.02 and abs(T - 1.0) < 1e-12 and cos_nl is None and not spec.get("via") and case.get("fft_alpha") is None:
         j = c0
         sh.sample({"model": ctx["model"], "T": T, "range": [a, b], "K_mid": float(K[j]), "call_mid": float(call[j]),
                    "tau_cos_mid": float(tau[j]), "tau_cos_edges": [float(tau[0]), float(tau[-1])],
@@ -562,6 +740,9 @@ def _check_vg_cgmy(sh, case):
     pv = case["vg"]
     pc = vg_as_cgmy(pv)
     sv, sc = _spec("vg", pv, r, d, S0), _spec("cgmy", pc, r, d, S0)
+    if case.get("via"):  # both models reached through re-assigned parameter objects + initialisation()
+        sv, sc = dict(sv, via=case["via"]), dict(sc, via=case["via"])
+        sh.cls(f"construction-route:{case['via']}")
     mv, mc_ = A.make_model(sv), A.make_model(sc)
     icls = "vg-vs-cgmy:y=0"
     ctx = {"vg": pv, "cgmy": pc, "T": T, "r": r, "d": d}
@@ -624,6 +805,8 @@ def _check_cf_degenerate(sh, case):
     model = A.make_model(spec)
     cfp = model.closed_form
     icls = "bs:degenerate:" + ("sigma<eps" if sigma < 1e-8 else "sigma>eps") + ":" + ("T<eps" if T < 1e-8 else "T>eps")
+    if S0 < 1e-8:
+        icls += ":spot<eps"
     sh.cls("family:" + icls)
     df = math.exp(-r * T)
     F = S0 * math.exp((r - d) * T)
@@ -651,56 +834,217 @@ def _check_cf_degenerate(sh, case):
     sh.outcome((icls, [round(float(c), 6) for c in calls[:3]]))
 
 
+class _HistoryViolation(Exception):
+    pass
+
+
+HIST_T = (0.5, 1.0, 2.0)
+HIST_R2, HIST_D2, HIST_ALPHA2 = 0.07, 0.035, 1.25
+
+
+def _hist_menu(kind, S0):
+    """(queries, number of core queries, operations) of one pricer class.  A query is (name, maturity, arguments)."""
+    Kv = [0.8 * S0, S0, 1.25 * S0]
+    core = [("call", 0.5, Kv), ("call", 2.0, Kv), ("put", 1.0, [0.9 * S0]), ("put", 2.0, [0.8 * S0, 1.1 * S0])]
+    if kind == "fft":
+        return core, 4, ["other", "copy", "set-d", "set-alpha"]
+    if kind == "cf":
+        q = core + [("digital", 1.0, Kv), ("forward", 2.0, Kv), ("butterfly", 0.5, [0.9 * S0, S0, 1.1 * S0]), ("call", 1.0, Kv),
+                    ("digital", 2.0, [S0, 1.1 * S0])]
+        return q, 4, ["other", "copy", "set-r", "set-d"]
+    q = core + [("digital", 1.0, Kv), ("cdf", 2.0, Kv), ("density", 1.0, [0.7 * S0, S0, 1.3 * S0]),
+                ("density", 1.0, [0.85 * S0, 1.1 * S0, 1.6 * S0]),  # same maturity, same number of points, other points
+                ("density_log", 0.5, [math.log(0.9 * S0), math.log(1.2 * S0)]), ("price-call", 1.0, [S0]),
+                ("butterfly", 0.5, [0.9 * S0, S0, 1.1 * S0]), ("forward", 2.0, Kv), ("call", 1.0, Kv), ("price-put", 2.0, [1.1 * S0])]
+    return q, 4, ["other", "copy", "set-r", "set-d", "model-routes"]
+
+
 def _check_pricer_history(sh, case):
-    """All ordered sequences (length <= depth) of queries from a small menu on one pricer object; every answer must equal the
-    answer of a freshly constructed pricer to the same query, bit for bit."""
+    """Ordered sequences of steps on ONE pricer object; a step is a query of the menu or a state-changing public operation
+    (`other`: a second pricer of the same class - same and other constants - on ANOTHER model asked at the same maturities;
+    `copy`: the pricer replaced by its deepcopy; `set-r` / `set-d`: the public attribute of the pricer's model re-assigned;
+    `model-routes`: model.cdf / model.density of the pricer's model, i.e. further pricers on the same model; `set-alpha`: the FFT
+    pricer's damping re-assigned).  The last step is a query; its answer must equal the answer of a freshly constructed pricer on a
+    freshly constructed model (with the re-assigned values) - bit for bit, 1e-12 max(K, S0) when an attribute was re-assigned.
+    Patterns: "pairs" = [q] and [s, q]; "qoq" = [q, o, q']; "ooq" = [o, o', q]; "qqq" = [q, q', q''] on the four core queries."""
+    import copy
     import itertools
 
     from rpylib.numerical.closedform.cfblackscholes import CFBlackScholes
     from rpylib.numerical.cosmethod import COSPricer
     from rpylib.numerical.fft import FFTPricer
+    from rpylib.product.payoff import PayoffType, Vanilla
+    from rpylib.product.product import Product
+    from rpylib.product.underlying import Spot
 
     spec = case["spec"]
+    kind = case["pricer"]
     icls = _icls(spec)
-    make = {"cos": COSPricer, "fft": FFTPricer, "cf": CFBlackScholes}[case["pricer"]]
-    S0 = spec.get("spot", 100.0)
-    menu = [
-        ("call", 0.5, [0.8 * S0, S0, 1.25 * S0]),
-        ("call", 2.0, [0.8 * S0, S0, 1.25 * S0]),
-        ("put", 1.0, [0.9 * S0]),
-        ("put", 2.0, [0.8 * S0, 1.1 * S0]),
-    ]
+    cos_nl = case.get("cos")
+    S0 = float(spec.get("spot", 100.0))
+    cls_ = {"cos": COSPricer, "fft": FFTPricer, "cf": CFBlackScholes}[kind]
+    queries, ncore, ops = _hist_menu(kind, S0)
+    pattern = case.get("pattern", "qqq")
+    sh.cls(f"history:{kind}:{pattern}")
+
+    def make(model, alpha=None):
+        if kind == "cos" and cos_nl is not None:
+            return COSPricer(model, n=int(cos_nl[0]), l=cos_nl[1])
+        pr = cls_(model)
+        if alpha is not None:
+            pr.alpha = alpha
+        return pr
 
     def ask(pricer, q):
-        kind, T, Ks = q
-        K = np.array(Ks, dtype=float) if len(Ks) > 1 else float(Ks[0])
-        return _vec(getattr(pricer, kind)(K, T))  # (strikes, maturity) positionally for the three pricers
+        name, T, args = q
+        with warnings.catch_warnings(), np.errstate(all="ignore"):
+            warnings.simplefilter("ignore")
+            if name in ("call", "put", "digital", "forward"):
+                K = np.array(args, dtype=float) if len(args) > 1 else float(args[0])
+                if kind == "cf" and name in ("digital",):
+                    K = np.array(args, dtype=float)
+                return _vec(getattr(pricer, name)(K, T))  # (strikes, maturity) positionally for the three pricers
+            if name == "cdf":
+                return _vec(pricer.cdf(T, np.array(args, dtype=float)))
+            if name == "density":
+                return _vec(pricer.density(T, np.array(args, dtype=float)))
+            if name == "density_log":
+                return _vec(pricer.density_log(T, np.array(args, dtype=float)))
+            if name == "butterfly":
+                return _vec(pricer.butterfly(float(args[0]), float(args[1]), float(args[2]), T))
+            if name in ("price-call", "price-put"):
+                pt = PayoffType.CALL if name == "price-call" else PayoffType.PUT
+                return _vec(pricer.price(Product(payoff_underlying=Spot(), payoff=Vanilla(strike=float(args[0]), payoff_type=pt), maturity=T)))
+        raise ValueError(name)
+
+    # the "other" model: Black-Scholes with another volatility, spot and rates, so that the second pricer's own answers have an
+    # independent reference (the closed form): a first-writer-wins cache shared between pricers corrupts the SECOND pricer
+    other_spec = _spec("bs", {"sigma": 0.35}, 0.03, 0.01, 80.0)
+
+    def model_of(pricer):
+        return getattr(pricer, "model", getattr(pricer, "bs_model", None))
+
+    def apply(state, op):
+        """state = [pricer, r, d, alpha, exact]"""
+        pricer = state[0]
+        with warnings.catch_warnings(), np.errstate(all="ignore"):
+            warnings.simplefilter("ignore")
+            if op == "other":
+                om = A.make_model(other_spec)
+                Ko = np.array([64.0, 80.0, 100.0])
+                others = [cls_(om)] + ([COSPricer(om, n=int(cos_nl[0]), l=cos_nl[1])] if (kind == "cos" and cos_nl is not None) else [])
+                for o in others:
+                    for T in (HIST_T if kind != "fft" else (0.5, 2.0)):
+                        oc = _vec(o.call(Ko, T), 3)
+                        op_ = _vec(o.put(Ko, T), 3)
+                        if kind != "cf":
+                            rc_, rp_ = _vec(om.closed_form.call(Ko, T), 3), _vec(om.closed_form.put(Ko, T), 3)
+                            # a-priori budgets at these strikes: below 1e-8 (COS, also with n = 1000, L = 12) / 2e-6 (FFT); observed
+                            # 4e-14 / 1.8e-7
+                            tol_o = 1e-7 if kind == "cos" else 1e-5
+                            sh.count("evaluations", 2)
+                            if not (np.all(np.abs(oc - rc_) <= tol_o) and np.all(np.abs(op_ - rp_) <= tol_o)):
+                                raise _HistoryViolation(
+                                    "second-pricer-on-another-model-disagrees-with-closed-form",
+                                    f"a second {cls_.__name__} on Black-Scholes(sigma=0.35, spot=80) answers call/put(T={T}) = {oc.tolist()} / "
+                                    f"{op_.tolist()}, closed form {rc_.tolist()} / {rp_.tolist()}")
+                        if kind != "fft":
+                            o.digital(Ko, T)
+                        if kind == "cos":
+                            o.density(T, Ko)
+            elif op == "copy":
+                state[0] = copy.deepcopy(pricer)
+            elif op in ("set-r", "set-d"):
+                m = model_of(pricer)
+                if m is None:
+                    return False
+                if op == "set-r":
+                    m.r = HIST_R2
+                    state[1] = HIST_R2
+                else:
+                    m.d = HIST_D2
+                    state[2] = HIST_D2
+                state[4] = False
+            elif op == "model-routes":
+                m = model_of(pricer)
+                if m is None or not hasattr(m, "cdf"):
+                    return False
+                for T in HIST_T:
+                    m.cdf(T, np.array([0.8 * S0, S0, 1.25 * S0]))
+                    m.density(T)(np.array([0.8 * S0, S0, 1.25 * S0]))
+            elif op == "set-alpha":
+                pricer.alpha = HIST_ALPHA2
+                state[3] = HIST_ALPHA2
+            else:
+                raise ValueError(op)
+        return True
 
     fresh = {}
-    for i, q in enumerate(menu):
-        fresh[i] = ask(make(A.make_model(spec)), q)
+
+    def want(r, d, alpha, qi):
+        key = (r, d, alpha, qi)
+        if key not in fresh:
+            fresh[key] = ask(make(A.make_model(dict(spec, r=r, d=d)), alpha), queries[qi])
+        return fresh[key]
+
+    nq = len(queries)
+    Q = [("q", i) for i in range(nq)]
+    O = [("o", o) for o in ops]
+    if pattern == "pairs":
+        seqs = [(q,) for q in Q] + [(s_, q) for s_ in Q + O for q in Q]
+    elif pattern == "qoq":
+        seqs = [(q, o, q2) for q in Q for o in O for q2 in Q]
+    elif pattern == "ooq":
+        seqs = [(o, o2, q) for o in O for o2 in O if o != o2 for q in Q]
+    elif pattern == "qqq":
+        core = Q[:ncore]
+        seqs = [t for t in itertools.product(core, repeat=3) if len(set(t)) > 1]
+    else:
+        raise ValueError(pattern)
+
     n_seq = 0
-    for depth in range(1, case["depth"] + 1):
-        for seq in itertools.product(range(len(menu)), repeat=depth):
-            if depth > 1 and len(set(seq)) == 1:
-                continue
-            pricer = make(A.make_model(spec))
-            last = None
-            for i in seq:
-                last = ask(pricer, menu[i])
-            sh.count("evaluations")
-            n_seq += 1
-            want = fresh[seq[-1]]
-            if last.shape != want.shape or not np.array_equal(last, want):
-                kind, T, Ks = menu[seq[-1]]
-                sh.violation(f"{PID}:history:{make.__name__}.{kind}:answer-depends-on-earlier-queries:{icls}",
-                             f"after queries {[menu[i][:2] for i in seq[:-1]]} the pricer answers {kind}(T={T}, K={Ks}) = {last.tolist()}; "
-                             f"a fresh pricer answers {want.tolist()}", {"sequence": [list(menu[i][:2]) for i in seq]})
-                break
-        else:
+    for seq in seqs:
+        state = [make(A.make_model(spec)), float(spec["r"]), float(spec["d"]), None, True]
+        last, ok = None, True
+        try:
+            for (t, x) in seq:
+                if t == "q":
+                    last = ask(state[0], queries[x])
+                elif not apply(state, x):
+                    ok = False
+                    break
+        except NotImplementedError:
+            raise
+        except _HistoryViolation as e:
+            desc = [x if t == "o" else list(queries[x][:2]) for t, x in seq]
+            sh.violation(f"{PID}:history:{cls_.__name__}:{e.args[0]}:{icls}", f"in the sequence {desc}: {e.args[1]}", {"sequence": desc, "cos_n_l": cos_nl})
+            break
+        except Exception as e:  # noqa: BLE001
+            key = f"{PID}:history:{cls_.__name__}:raises-{type(e).__name__}:{icls}"
+            sh.violation(key, f"the sequence {[x if t == 'o' else list(queries[x][:2]) for t, x in seq]} raised {type(e).__name__}: {e}",
+                         {"sequence": [x if t == "o" else list(queries[x][:2]) for t, x in seq]})
+            break  # one violation per case: the runner confirms every key by re-running its case
+        if not ok:
+            sh.count("history_sequences_skipped:model-attribute-not-found")
+            sh.cap("the pricer's model was not found under .model / .bs_model: sequences with set-r / set-d / model-routes skipped")
             continue
-        break
-    sh.outcome((icls, case["pricer"], n_seq, tuple(np.round(fresh[0], 6).tolist())))
+        sh.count("evaluations")
+        n_seq += 1
+        name, T, args = queries[seq[-1][1]]
+        target = want(state[1], state[2], state[3], seq[-1][1])
+        if state[4]:
+            same = last.shape == target.shape and np.array_equal(last, target)
+        else:
+            same = last.shape == target.shape and bool(np.all(np.abs(last - target) <= 1e-12 * max(S0, float(np.max(np.abs(args))))))
+        if not same:
+            used_ops = [x for t, x in seq if t == "o"]
+            failure = "answer-depends-on-earlier-queries" if not used_ops else "differs-from-fresh-pricer-after-" + used_ops[-1]
+            key = f"{PID}:history:{cls_.__name__}.{name}:{failure}:{icls}"
+            desc = [x if t == "o" else list(queries[x][:2]) for t, x in seq]
+            sh.violation(key, f"after the steps {desc[:-1]} the pricer answers {name}(T={T}, {args}) = {last.tolist()}; a fresh pricer on a fresh "
+                              f"model (r={state[1]}, d={state[2]}) answers {target.tolist()}", {"sequence": desc, "cos_n_l": cos_nl})
+            break  # one violation per case (simplest sequence first): the runner confirms every key by re-running its case
+    sh.outcome((icls, kind, pattern, n_seq, tuple(np.round(want(float(spec["r"]), float(spec["d"]), None, 0), 6).tolist())))
     sh.nontriv()
 
 
